@@ -142,7 +142,11 @@ func waiting(st string) bool {
 type muxOpSpec struct {
 	Kind string `json:"op"`             // I ingress, A accept, C close, X parent cancel
 	Hold bool   `json:"hold,omitempty"` // park at the operation's first hook point until the next operation has settled
+	Err  bool   `json:"err,omitempty"`  // ingress only: the connection is handed in together with a non-nil error
 }
+
+// errMuxIngress accompanies connections that are ingressed with an error (IngressConn passes both through).
+var errMuxIngress = errors.New("harness: error ingressed together with a connection")
 
 type muxCase struct {
 	Ops     []muxOpSpec `json:"ops"`
@@ -155,6 +159,9 @@ func (m muxCase) String() string {
 		sb.WriteString(o.Kind)
 		if o.Hold {
 			sb.WriteString("*")
+		}
+		if o.Err {
+			sb.WriteString("!")
 		}
 	}
 	return sb.String() + "/" + m.Release
@@ -325,7 +332,11 @@ func runMuxCase(c *engine.Ctx, mc muxCase, stats *muxStats) {
 			}()
 			switch op.spec.Kind {
 			case "I":
-				l.IngressConn(op.conn, nil)
+				if op.spec.Err {
+					l.IngressConn(op.conn, errMuxIngress)
+				} else {
+					l.IngressConn(op.conn, nil)
+				}
 			case "A":
 				op.retConn, op.retErr = l.Accept()
 			case "C":
@@ -467,9 +478,14 @@ func runMuxCase(c *engine.Ctx, mc muxCase, stats *muxStats) {
 		}
 		if op.spec.Kind == "A" {
 			switch {
-			case op.retErr == nil && op.retConn != nil:
+			case op.retConn != nil && (op.retErr == nil || op.retErr == errMuxIngress):
+				// a connection ingressed together with an error is handed to the caller with that error:
+				// the caller has it, so it counts as returned
 				if ac, ok := op.retConn.(*acctConn); ok {
 					ac.returned.Add(1)
+					if op.retErr != nil {
+						r.Count("connections_returned_with_their_ingress_error", 1)
+					}
 				} else {
 					r.Violation("accept-returned-foreign-conn", "Accept returned a connection that was never ingressed", mc)
 				}
@@ -621,7 +637,15 @@ func runMuxStress(c *engine.Ctx, round int, seed int64) {
 		cn := &acctConn{id: i}
 		conns = append(conns, cn)
 		wg.Add(1)
-		go guard(func() { <-start; l.IngressConn(cn, nil) })
+		withErr := rng.Intn(5) == 0
+		go guard(func() {
+			<-start
+			if withErr {
+				l.IngressConn(cn, errMuxIngress)
+			} else {
+				l.IngressConn(cn, nil)
+			}
+		})
 	}
 	for i := 0; i < nAccept; i++ {
 		wg.Add(1)
@@ -629,7 +653,7 @@ func runMuxStress(c *engine.Ctx, round int, seed int64) {
 			<-start
 			for {
 				cn, err := l.Accept()
-				if err != nil {
+				if err != nil && !(err == errMuxIngress && cn != nil) {
 					if !errors.Is(err, net.ErrClosed) {
 						bad.Store(fmt.Sprintf("Accept returned error %v", err))
 					}
@@ -815,6 +839,24 @@ func runMux(c *engine.Ctx) engine.Result {
 					}
 				}
 			}
+		}
+	}
+	// the same schedules with some connections handed in together with an error
+	for _, mc := range cases[:len(cases):len(cases)] {
+		if rng.Intn(3) != 0 {
+			continue
+		}
+		cp := muxCase{Release: mc.Release}
+		some := false
+		for _, o := range mc.Ops {
+			if o.Kind == "I" && rng.Intn(2) == 0 {
+				o.Err = true
+				some = true
+			}
+			cp.Ops = append(cp.Ops, o)
+		}
+		if some {
+			cases = append(cases, cp)
 		}
 	}
 	r.Set("controlled_schedules", len(cases))
